@@ -127,6 +127,16 @@ macro_rules! apply_claim {
             ClaimSpec::Custom { key, value } => go_res!(CustomClaim::try_from((key.clone(), value.clone()))),
             ClaimSpec::CustomRef { key, value } => go_res!(CustomClaim::try_from((key.as_str(), value.clone()))),
             ClaimSpec::Bare { key, value } => go!(BareClaim { key: key.clone(), value: value.clone() }),
+            ClaimSpec::DefaultOf(k) => match k.as_str() {
+                "iss" => go!(IssuerClaim::default()),
+                "sub" => go!(SubjectClaim::default()),
+                "aud" => go!(AudienceClaim::default()),
+                "jti" => go!(TokenIdentifierClaim::default()),
+                "exp" => go!(ExpirationClaim::default()),
+                "nbf" => go!(NotBeforeClaim::default()),
+                "iat" => go!(IssuedAtClaim::default()),
+                _ => false,
+            },
             ClaimSpec::Native { key, val } => match val {
                 NativeVal::I64(x) => go_res!(CustomClaim::try_from((key.clone(), *x))),
                 NativeVal::U64(x) => go_res!(CustomClaim::try_from((key.clone(), *x))),
@@ -800,6 +810,9 @@ pub fn make_builder(proto: Proto, layer: Layer) -> Result<Box<dyn BuilderObj>, S
 // -------------------------------------------------------------------------------------------------
 // core-layer issue
 
+/// the 6 orders of (0 = set_payload, 1 = set_footer, 2 = set_implicit_assertion)
+pub const SETTER_ORDERS: [[u8; 3]; 6] = [[0, 1, 2], [1, 0, 2], [1, 2, 0], [2, 1, 0], [0, 2, 1], [2, 0, 1]];
+
 pub fn core_issue(
     proto: Proto,
     km: &KeyMat,
@@ -807,7 +820,9 @@ pub fn core_issue(
     payload: &str,
     footer: Option<&str>,
     assertion: Option<&str>,
+    order: u8,
 ) -> Result<Outcome, String> {
+    let steps = SETTER_ORDERS[(order as usize) % 6];
     if !proto.available() {
         return Err(format!("{} not compiled into this binary", proto.name()));
     }
@@ -821,11 +836,21 @@ pub fn core_issue(
             let nk: $nonce_ty = <$nonce_ty>::from(nonce);
             let n = PasetoNonce::<$V, Local>::from(&nk);
             let mut b = Paseto::<$V, Local>::builder();
-            b.set_payload(Payload::from(payload));
-            if let Some(f) = footer {
-                b.set_footer(Footer::from(f));
+            for st in steps {
+                match st {
+                    0 => {
+                        b.set_payload(Payload::from(payload));
+                    }
+                    1 => {
+                        if let Some(f) = footer {
+                            b.set_footer(Footer::from(f));
+                        }
+                    }
+                    _ => {
+                        local!(@assert $assert, b);
+                    }
+                }
             }
-            local!(@assert $assert, b);
             Ok(ok_str(b.try_encrypt(&key, &n)))
         }};
         (@assert yes, $b:ident) => {
@@ -841,11 +866,21 @@ pub fn core_issue(
             let pk = km.private_for(proto).ok_or("need private key")?;
             let key = PasetoAsymmetricPrivateKey::<$V, Public>::from(pk.as_slice());
             let mut b = Paseto::<$V, Public>::builder();
-            b.set_payload(Payload::from(payload));
-            if let Some(f) = footer {
-                b.set_footer(Footer::from(f));
+            for st in steps {
+                match st {
+                    0 => {
+                        b.set_payload(Payload::from(payload));
+                    }
+                    1 => {
+                        if let Some(f) = footer {
+                            b.set_footer(Footer::from(f));
+                        }
+                    }
+                    _ => {
+                        local!(@assert $assert, b);
+                    }
+                }
             }
-            local!(@assert $assert, b);
             Ok(ok_str(b.try_sign(&key)))
         }};
     }
@@ -888,12 +923,22 @@ pub fn core_issue(
             let k48 = Key::<48>::from(pk.as_slice());
             let key = PasetoAsymmetricPrivateKey::<V3, Public>::from(&k48);
             let mut b = Paseto::<V3, Public>::builder();
-            b.set_payload(Payload::from(payload));
-            if let Some(f) = footer {
-                b.set_footer(Footer::from(f));
-            }
-            if let Some(a) = assertion {
-                b.set_implicit_assertion(ImplicitAssertion::from(a));
+            for st in steps {
+                match st {
+                    0 => {
+                        b.set_payload(Payload::from(payload));
+                    }
+                    1 => {
+                        if let Some(f) = footer {
+                            b.set_footer(Footer::from(f));
+                        }
+                    }
+                    _ => {
+                        if let Some(a) = assertion {
+                            b.set_implicit_assertion(ImplicitAssertion::from(a));
+                        }
+                    }
+                }
             }
             Ok(ok_str(b.try_sign(&key)))
         }
@@ -1061,7 +1106,7 @@ impl World {
                 }
                 Obs::Build { result, draws, reads }
             }
-            Op::CoreIssue { proto, key, nonce_hex, payload, footer, assertion, out } => {
+            Op::CoreIssue { proto, key, nonce_hex, payload, footer, assertion, out, order } => {
                 let km = match self.keys.get(*key) {
                     Some(k) => k.clone(),
                     None => return Obs::Skipped("no such key".into()),
@@ -1071,7 +1116,7 @@ impl World {
                     Err(_) => return Obs::Skipped("bad nonce hex".into()),
                 };
                 env::set_clock(0, &[]);
-                let r = env::guarded(|| core_issue(*proto, &km, &nonce, payload, footer.as_deref(), assertion.as_deref()));
+                let r = env::guarded(|| core_issue(*proto, &km, &nonce, payload, footer.as_deref(), assertion.as_deref(), *order));
                 match r {
                     Ok(Ok(o)) => {
                         if let Outcome::OkStr(t) = &o {
